@@ -41,7 +41,7 @@ try:
     rb = subprocess.run(["python3", "/verif/tools/baseline_check.py", tree], capture_output=True, text=True)
     meta["baseline"] = rb.stdout.strip().splitlines()[-1] if rb.stdout.strip() else rb.stderr[-200:]
     meta["baseline_ok"] = rb.returncode == 0
-    envc = dict(os.environ, VERIF_REPO=tree)
+    envc = dict(os.environ, VERIF_REPO=tree, VERIF_EVIDENCE_DIR=d + "/evidence", VERIF_REPLAY_DIR=d + "/replays")
     envc.pop("_MC_ENV_DONE", None); envc.pop("PYTHONPATH", None)
     detected = {}
     for c in checks:
